@@ -8,7 +8,7 @@ import numpy as np
 
 from ..core import Ctx, Violation, HarnessError, SimCrash, rng_for, np_rng, canon, sha_array, bits_equal
 from ..simfs import SimFS, SimDisk, Patched
-from ..snapshot import snap, diff as snapdiff
+from ..snapshot import snap, semantic_snap, diff as snapdiff
 
 PROPS = ("C18",)
 MAX_POOL = 8
@@ -200,7 +200,7 @@ def execute(triple, prop):
 def step(ctx, st, op, H):
     name = op["op"]
     st.alias_kind, st.fault_kind = "none", "none"
-    before = [snap(o) for o in st.pool]
+    before = [semantic_snap(o) for o in st.pool]
     ids_before = list(st.pool)
     targets = []          # objects the operation is allowed to change
     created = []
@@ -484,7 +484,7 @@ def step(ctx, st, op, H):
     for o, b in zip(ids_before, before):
         if any(o is t for t in targets) or not any(o is p for p in st.pool):
             continue
-        d = snapdiff(b, snap(o))
+        d = snapdiff(b, semantic_snap(o))
         ctx.check(d is None, "other_object_changed",
                   lambda: f"{name} changed an object that was not its target: {d}",
                   key={"op": name, "alias": st.alias_kind})
